@@ -33,6 +33,8 @@ def main(args):
         for n in bounds.THOROUGH_TARGETS:
             bounds.TARGETS[n] = bounds.THOROUGH_TARGETS[n]
     pool.run_targets(run, "contracts.bounds", names)
+    from contracts import gate
+    pool.run_targets(run, "contracts.gate", [t for t in gate.TARGETS if t != "_cpp_integer_type_for_enum"])
     # replay every refuted obligation on the real code of the same tree
     for ob in run.obligations:
         if ob.verdict == core.REFUTED:
